@@ -33,6 +33,8 @@ pub struct Entry {
     pub via: Option<usize>,
     pub expected: Vec<u8>,
     pub dropper: bool,
+    /// destructor runs (per arena) already observed when the value was written (zero-sized values are dropped by `write`)
+    pub early_drops: usize,
     pub gen: u32,
     pub recycled: bool,
     pub holds_ref: bool,
@@ -179,12 +181,18 @@ pub struct Hist<'o> {
     pub tmp_recycled: bool,
     pub unobserved_releases: u32,
     pub closed: bool,
+    pub pending_early_drops: (bool, usize),
+    pub stay_read_only: bool,
 }
 
 thread_local! {
     /// atomic accesses the arena performed since the current operation of the history was started
     pub static STEP_ACCESSES: std::cell::Cell<u64> = const { std::cell::Cell::new(0) };
     pub static STEP_WHAT: std::cell::RefCell<String> = const { std::cell::RefCell::new(String::new()) };
+    /// (xorshift state, percentage) of injected spurious compare_exchange_weak failures for the current history
+    pub static SPURIOUS: std::cell::Cell<(u64, u32)> = const { std::cell::Cell::new((0, 0)) };
+    pub static LAST_SPURIOUS: std::cell::Cell<bool> = const { std::cell::Cell::new(false) };
+    pub static SPURIOUS_INJECTED: std::cell::Cell<u64> = const { std::cell::Cell::new(0) };
 }
 
 /// One operation of a single-threaded history may perform this many atomic accesses (arenas are at most
@@ -204,6 +212,28 @@ pub fn seq_hook_before(_p: &rarena_allocator::verif_hooks::Pending) -> rarena_al
         c.set(v);
         v
     });
+    // spurious failures of compare_exchange_weak: legal at any time (x86 never produces them); correct code
+    // retries, so the history must come out exactly as without them
+    if _p.access == rarena_allocator::verif_hooks::Access::CasWeak {
+        let fail = SPURIOUS.with(|c| {
+            let (mut x, pct) = c.get();
+            if pct == 0 {
+                return false;
+            }
+            x ^= x << 13;
+            x ^= x >> 7;
+            x ^= x << 17;
+            c.set((x, pct));
+            // never twice in a row on the same thread, so that bounded retry loops (maximum_retries) still get through
+            let again = LAST_SPURIOUS.with(|l| l.replace(false));
+            !again && (x % 100) < pct as u64
+        });
+        if fail {
+            LAST_SPURIOUS.with(|l| l.set(true));
+            SPURIOUS_INJECTED.with(|c| c.set(c.get() + 1));
+            return Directive::SpuriousFail;
+        }
+    }
     if n > SEQ_STEP_BUDGET {
         let what = STEP_WHAT.with(|w| w.borrow().clone());
         let mut it = what.splitn(2, '|');
